@@ -214,3 +214,376 @@ Proof.
   - rewrite X20, X18. rewrite <- !app_assoc. reflexivity.
 Qed.
 End Shape.
+
+Lemma fieldN_lt bs off sz : off + N.of_nat sz <= lenN bs -> fieldN bs off sz < 256 ^ N.of_nat sz.
+Proof.
+  intros L. unfold fieldN. pose proof (decode_lt (subN bs off (N.of_nat sz))) as D.
+  rewrite lenN_subN in D by exact L. exact D.
+Qed.
+
+Section Roundtrip.
+Variables (m m' : mode) (e name p sht2 hdr4 : list byte).
+Let shoff := e_shoff e.
+Let se := e_shentsize e.
+Let shnum := e_shnum e.
+Let sx := e_shstrndx e.
+Let noff := names_off e.
+Let nsz := names_size e.
+Let k := lenN name + 1.
+Let pos := noff + nsz.
+Let ins := name ++ [zero].
+Let A := encode_le 8 (shoff + k + lenN p).
+Let B := encode_le 2 (shnum + 1).
+Let X := takeN shoff e.
+Let e' := updN (updN (insN X pos ins ++ p ++ sht2 ++ hdr4) 40 A) 60 B.
+Let nshoff := shoff + k + lenN p.
+
+Hypothesis W : wf_elf e.
+Hypothesis NOSEC : ~ has_section e name.
+Hypothesis NOK : name_ok name.
+Hypothesis FIT : lenN e + lenN name + lenN p + 65537 < 18446744073709551616.
+Hypothesis Hv : validate_elf true m e = Ok tt.
+Hypothesis L64 : 64 <= lenN e.
+Hypothesis LE : lenN e = shoff + shnum * se.
+Hypothesis PS : pos <= shoff.
+Hypothesis SE : 40 <= se.
+Hypothesis SX : sx < shnum.
+Hypothesis NS : nsz < 4294967296.
+Hypothesis SN : shnum + 1 < 65536.
+Hypothesis LS : lenN sht2 = shnum * se.
+Hypothesis LH : lenN hdr4 = se.
+Hypothesis FR : forall o n, (forall j, sx < j < shnum -> o + n <= j * se + 24 \/ j * se + 32 <= o) ->
+                 (o + n <= sx * se + 32 \/ sx * se + 40 <= o) ->
+                 subN sht2 o n = subN e (shoff + o) n.
+Hypothesis F0 : fieldN hdr4 0 4 = nsz.
+Hypothesis F24 : fieldN hdr4 24 8 = shoff + k.
+Hypothesis F32 : fieldN hdr4 32 8 = lenN p.
+
+Let Hd := updN (updN (takeN pos X) 40 A) 60 B.
+Let R := dropN pos X.
+
+Local Lemma W1 : 64 <= noff. Proof. apply W. Qed.
+Local Lemma W2 : 1 <= nsz. Proof. apply W. Qed.
+Local Lemma LX : lenN X = shoff. Proof. unfold X. apply lenN_takeN_le. lia. Qed.
+Local Lemma LT : lenN (takeN pos X) = pos. Proof. apply lenN_takeN_le. rewrite LX. exact PS. Qed.
+Local Lemma LA : lenN A = 8. Proof. unfold A. now rewrite lenN_encode. Qed.
+Local Lemma LB : lenN B = 2. Proof. unfold B. now rewrite lenN_encode. Qed.
+Local Lemma LHd : lenN Hd = pos.
+Proof.
+  pose proof W1. pose proof LT. pose proof LA. pose proof LB.
+  unfold Hd. rewrite !lenN_updN; rewrite ?lenN_updN; lia.
+Qed.
+Local Lemma LR : lenN R = shoff - pos. Proof. unfold R. rewrite lenN_dropN, LX. reflexivity. Qed.
+Local Lemma Lins : lenN ins = k. Proof. unfold ins. rewrite lenN_app. reflexivity. Qed.
+Local Lemma SE16 : se < 65536.
+Proof. apply (fieldN_lt e 58 2). change (N.of_nat 2) with 2. lia. Qed.
+
+Local Lemma NF : e' = Hd ++ ins ++ R ++ p ++ sht2 ++ hdr4.
+Proof.
+  pose proof W1. pose proof LT. pose proof LA. pose proof LB.
+  unfold e', insN, Hd, R. rewrite <- !app_assoc. apply updN2_app_l; lia.
+Qed.
+
+Local Lemma Le' : lenN e' = nshoff + (shnum + 1) * se.
+Proof.
+  rewrite NF, !lenN_app, LHd, Lins, LR, LS, LH. unfold nshoff. lia.
+Qed.
+
+Local Lemma tab_sub x n : subN e' (nshoff + x) n = subN (sht2 ++ hdr4) x n.
+Proof.
+  rewrite NF.
+  replace (nshoff + x) with (lenN Hd + (lenN ins + (lenN R + (lenN p + x))))
+    by (rewrite LHd, Lins, LR; unfold nshoff; lia).
+  now rewrite !subN_app_r'.
+Qed.
+
+Local Lemma hd_sub o n : o + n <= pos -> (o + n <= 40 \/ 48 <= o) -> (o + n <= 60 \/ 62 <= o) ->
+  subN e' o n = subN e o n.
+Proof.
+  intros H1 H2 H3. pose proof W1. pose proof LT. pose proof LA. pose proof LB.
+  rewrite NF. rewrite subN_app_l by (rewrite LHd; lia). unfold Hd.
+  rewrite subN_updN_disj by (rewrite ?lenN_updN; lia).
+  rewrite subN_updN_disj by lia.
+  rewrite subN_takeN by lia. unfold X. apply subN_takeN. lia.
+Qed.
+
+Local Lemma rf sz off v : off + N.of_nat sz <= lenN e' -> fieldN e' off sz = v ->
+  read_field true m' sz e' off = Ok v.
+Proof.
+  intros L <-. apply read_field_eq; [exact L|]. pose proof Le'. pose proof SE16.
+  assert (shnum * se <= lenN e) by lia. assert ((shnum + 1) * se = shnum * se + se) by lia.
+  unfold nshoff, k in *. lia.
+Qed.
+
+Local Lemma f_shoff : fieldN e' 40 8 = nshoff.
+Proof.
+  pose proof W1. pose proof LT. pose proof LA. pose proof LB.
+  unfold fieldN. rewrite NF. change (N.of_nat 8) with 8.
+  rewrite subN_app_l by (rewrite LHd; lia). unfold Hd.
+  rewrite subN_updN_disj by (rewrite ?lenN_updN; lia).
+  rewrite <- LA. rewrite subN_updN_same by lia. unfold A.
+  apply decode_encode_8. unfold k. lia.
+Qed.
+
+Local Lemma f_shnum : fieldN e' 60 2 = shnum + 1.
+Proof.
+  pose proof W1. pose proof LT. pose proof LA. pose proof LB.
+  unfold fieldN. rewrite NF. change (N.of_nat 2) with 2.
+  rewrite subN_app_l by (rewrite LHd; lia). unfold Hd.
+  rewrite <- LB. rewrite subN_updN_same by (rewrite ?lenN_updN; lia). unfold B.
+  apply decode_encode_2. lia.
+Qed.
+
+Local Lemma f_se : fieldN e' 58 2 = se.
+Proof. pose proof W1. unfold fieldN. change (N.of_nat 2) with 2. rewrite hd_sub by (unfold pos; lia). reflexivity. Qed.
+Local Lemma f_sx : fieldN e' 62 2 = sx.
+Proof. pose proof W1. unfold fieldN. change (N.of_nat 2) with 2. rewrite hd_sub by (unfold pos; lia). reflexivity. Qed.
+
+(* old section header bytes, away from the rewritten fields, are found in the new table *)
+Local Lemma old_hdr_sub j o n : j < shnum -> o + n <= 24 ->
+  subN e' (nshoff + (j * se + o)) n = subN e (shoff + (j * se + o)) n.
+Proof.
+  intros Hj Ho. rewrite tab_sub.
+  assert (j * se + se <= shnum * se) by (apply mul_succ_le; lia).
+  rewrite subN_app_l by (rewrite LS; lia).
+  apply FR.
+  - intros j' Hj'. destruct (N.le_gt_cases j j') as [G|G].
+    + left. pose proof (mul_le_r _ _ se G). lia.
+    + right. assert (j' + 1 <= j) as G' by lia. pose proof (mul_succ_le _ _ se G'). lia.
+  - destruct (N.le_gt_cases j sx) as [G|G].
+    + left. pose proof (mul_le_r _ _ se G). lia.
+    + right. assert (sx + 1 <= j) as G' by lia. pose proof (mul_succ_le _ _ se G'). lia.
+Qed.
+
+Local Lemma f_noff : fieldN e' (nshoff + sx * se + 24) 8 = noff.
+Proof.
+  unfold fieldN. change (N.of_nat 8) with 8.
+  replace (nshoff + sx * se + 24) with (nshoff + (sx * se + 24)) by lia.
+  rewrite tab_sub.
+  assert (sx * se + se <= shnum * se) by (apply mul_succ_le; lia).
+  rewrite subN_app_l by (rewrite LS; lia).
+  rewrite FR.
+  - unfold noff, names_off, sh_field, fieldN. fold shoff se sx. change (N.of_nat 8) with 8.
+    f_equal. f_equal. lia.
+  - intros j' Hj'. left. assert (sx + 1 <= j') as G' by lia. pose proof (mul_succ_le _ _ se G'). lia.
+  - left. lia.
+Qed.
+
+(* the name table seen from offset d inside it *)
+Local Lemma names_seg d : noff <= d -> d < pos ->
+  exists seg, In zero seg /\ dropN d e = seg ++ dropN pos e /\ dropN d e' = seg ++ ins ++ R ++ p ++ sht2 ++ hdr4.
+Proof.
+  intros D1 D2. pose proof W1. pose proof LT. pose proof LA. pose proof LB.
+  exists (subN e d (pos - d)). split; [|split].
+  - destruct W as (_ & _ & Z & _). fold noff nsz pos in Z.
+    replace (pos - d) with ((pos - 1 - d) + 1) by lia. rewrite subN_split.
+    apply in_or_app. right. replace (d + (pos - 1 - d)) with (pos - 1) by lia. rewrite Z. now left.
+  - apply dropN_split; lia.
+  - rewrite NF. rewrite dropN_app_l by (rewrite LHd; lia). f_equal.
+    unfold Hd. rewrite dropN_updN_after by (rewrite ?lenN_updN; lia).
+    rewrite dropN_updN_after by lia.
+    rewrite dropN_takeN by lia. unfold X. apply subN_takeN. lia.
+Qed.
+
+Local Lemma old_name j : j < shnum ->
+  exists s, read_string e' (noff + sh_field e j 0 4) 32 = Ok s /\ s <> name.
+Proof.
+  intros Hj. destruct W as (_ & _ & _ & W4). pose proof (W4 j Hj) as Hn. fold nsz in Hn.
+  set (nm := sh_field e j 0 4) in *.
+  destruct (names_seg (noff + nm)) as (seg & Z & S1 & S2); [lia | unfold pos; lia|].
+  destruct (rs_zero_ok seg (dropN pos e) Z 32) as [s Hs].
+  exists s. split.
+  - unfold read_string. rewrite flen_eq.
+    replace (noff + nm <? lenN e') with true
+      by (symmetry; apply N.ltb_lt; rewrite Le'; unfold nshoff, pos in *; lia).
+    rewrite S2. rewrite (rs_app_zero seg _ (dropN pos e) Z). exact Hs.
+  - intros ->. apply NOSEC. exists j. split; [exact Hj|].
+    unfold sec_name, read_string. fold noff nm. rewrite flen_eq.
+    replace (noff + nm <? lenN e) with true by (symmetry; apply N.ltb_lt; unfold pos in *; lia).
+    rewrite S1. exact Hs.
+Qed.
+
+Local Lemma new_name : read_string e' pos 32 = Ok name.
+Proof.
+  pose proof W1. destruct NOK as [Z Ln].
+  unfold read_string. rewrite flen_eq.
+  replace (pos <? lenN e') with true by (symmetry; apply N.ltb_lt; rewrite Le'; unfold nshoff, k; lia).
+  rewrite NF. replace pos with (lenN Hd + 0) at 1 by (rewrite LHd; lia).
+  rewrite dropN_app_r', dropN_0. unfold ins. rewrite <- app_assoc. cbn [app].
+  apply rs_name; [exact Z|]. unfold lenN in Ln. lia.
+Qed.
+
+Local Lemma loop_from i : i <= shnum ->
+  extract_elf_loop true m' e' name nshoff se noff i (N.to_nat (shnum + 1 - i)) = Ok p.
+Proof.
+  intros Hi. remember (N.to_nat (shnum - i)) as d eqn:Hd'.
+  revert i Hi Hd'. induction d as [|d IH]; intros i Hi Hd'.
+  - (* i = shnum: the new section *)
+    assert (i = shnum) by lia. subst i.
+    replace (N.to_nat (shnum + 1 - shnum)) with 1%nat by lia. cbn [extract_elf_loop].
+    pose proof Le' as Le. pose proof SE16. assert ((shnum + 1) * se = shnum * se + se) as Ex by lia.
+    assert (shnum * se <= lenN e) by lia.
+    replace (uadd true m' 18446744073709551616 nshoff (shnum * se)) with (@Ok N (nshoff + shnum * se))
+      by (symmetry; apply uadd_ok; split; [reflexivity | unfold nshoff, k in *; lia]).
+    cbn [obind].
+    assert (TH : forall o n, o + n <= se -> subN e' (nshoff + shnum * se + o) n = subN hdr4 o n).
+    { intros o n Ho. replace (nshoff + shnum * se + o) with (nshoff + (shnum * se + o)) by lia.
+      rewrite tab_sub. replace (shnum * se + o) with (lenN sht2 + o) by (rewrite LS; lia).
+      now rewrite subN_app_r'. }
+    rewrite (rf 4 (nshoff + shnum * se) nsz).
+    2:{ change (N.of_nat 4) with 4. rewrite Le. lia. }
+    2:{ unfold fieldN. change (N.of_nat 4) with 4.
+        replace (nshoff + shnum * se) with (nshoff + shnum * se + 0) by lia. rewrite TH by lia. exact F0. }
+    cbn [obind].
+    replace (uadd true m' 18446744073709551616 noff nsz) with (@Ok N pos)
+      by (symmetry; apply uadd_ok; split; [reflexivity | unfold pos in *; lia]).
+    cbn [obind]. rewrite new_name. cbn [obind]. rewrite str_eqb_refl.
+    replace (uadd true m' 18446744073709551616 (nshoff + shnum * se) 24) with (@Ok N (nshoff + shnum * se + 24))
+      by (symmetry; apply uadd_ok; split; [reflexivity | unfold nshoff, k in *; lia]).
+    cbn [obind].
+    rewrite (rf 8 (nshoff + shnum * se + 24) (shoff + k)).
+    2:{ change (N.of_nat 8) with 8. rewrite Le. lia. }
+    2:{ unfold fieldN. change (N.of_nat 8) with 8. rewrite TH by lia. exact F24. }
+    cbn [obind].
+    replace (uadd true m' 18446744073709551616 (nshoff + shnum * se) 32) with (@Ok N (nshoff + shnum * se + 32))
+      by (symmetry; apply uadd_ok; split; [reflexivity | unfold nshoff, k in *; lia]).
+    cbn [obind].
+    rewrite (rf 8 (nshoff + shnum * se + 32) (lenN p)).
+    2:{ change (N.of_nat 8) with 8. rewrite Le. lia. }
+    2:{ unfold fieldN. change (N.of_nat 8) with 8. rewrite TH by lia. exact F32. }
+    cbn [obind].
+    unfold split_trunc. rewrite flen_eq.
+    replace (shoff + k <=? lenN e') with true by (symmetry; apply N.leb_le; rewrite Le; unfold nshoff; lia).
+    f_equal. rewrite NF.
+    replace (shoff + k) with (lenN Hd + (lenN ins + (lenN R + 0))) by (rewrite LHd, Lins, LR; lia).
+    rewrite !dropN_app_r', dropN_0. rewrite flen_eq, lenN_app.
+    destruct (lenN p <? lenN p + lenN (sht2 ++ hdr4)) eqn:Q.
+    + apply takeN_app_exact.
+    + apply N.ltb_ge in Q. assert (lenN (sht2 ++ hdr4) = 0) as Z by lia.
+      rewrite lenN_app, LH in Z. lia.
+  - (* an old section: its name differs *)
+    assert (i < shnum) as Hlt by lia.
+    replace (N.to_nat (shnum + 1 - i)) with (S (N.to_nat (shnum + 1 - (i + 1)))) by lia.
+    cbn [extract_elf_loop].
+    pose proof Le' as Le. pose proof SE16. assert ((shnum + 1) * se = shnum * se + se) as Ex by lia.
+    assert (shnum * se <= lenN e) by lia.
+    assert (i * se + se <= shnum * se) by (apply mul_succ_le; lia).
+    replace (uadd true m' 18446744073709551616 nshoff (i * se)) with (@Ok N (nshoff + i * se))
+      by (symmetry; apply uadd_ok; split; [reflexivity | unfold nshoff, k in *; lia]).
+    cbn [obind].
+    rewrite (rf 4 (nshoff + i * se) (sh_field e i 0 4)).
+    2:{ change (N.of_nat 4) with 4. rewrite Le. lia. }
+    2:{ unfold fieldN. change (N.of_nat 4) with 4.
+        replace (nshoff + i * se) with (nshoff + (i * se + 0)) by lia. rewrite old_hdr_sub by lia.
+        unfold sh_field, fieldN. fold shoff se. change (N.of_nat 4) with 4. f_equal. f_equal. lia. }
+    cbn [obind].
+    destruct W as (_ & _ & _ & W4). pose proof (W4 i Hlt) as Hn. fold nsz in Hn.
+    replace (uadd true m' 18446744073709551616 noff (sh_field e i 0 4)) with (@Ok N (noff + sh_field e i 0 4))
+      by (symmetry; apply uadd_ok; split; [reflexivity | unfold pos in *; lia]).
+    cbn [obind].
+    destruct (old_name i Hlt) as (s & Hs & Hne). rewrite Hs. cbn [obind].
+    replace (str_eqb s name) with false by (symmetry; now apply str_eqb_neq).
+    apply IH; lia.
+Qed.
+
+Lemma roundtrip_core : extract_elf m' e' name = Ok p.
+Proof.
+  unfold extract_elf, extract_elf_gen.
+  pose proof Le' as Le. pose proof SE16. pose proof W1.
+  assert ((shnum + 1) * se = shnum * se + se) as Ex by lia.
+  assert (sx * se + se <= shnum * se) by (apply mul_succ_le; lia).
+  rewrite (validate_elf_prefix m m' e e').
+  2:{ apply hd_sub; unfold pos; lia. }
+  2:{ lia. }
+  2:{ rewrite Le. unfold nshoff. lia. }
+  2:{ exact Hv. }
+  cbn [obind].
+  rewrite (rf 8 40 nshoff) by (try apply f_shoff; change (N.of_nat 8) with 8; rewrite Le; unfold nshoff; lia).
+  cbn [obind].
+  rewrite (rf 2 58 se) by (try apply f_se; change (N.of_nat 2) with 2; rewrite Le; unfold nshoff; lia).
+  cbn [obind].
+  rewrite (rf 2 60 (shnum + 1)) by (try apply f_shnum; change (N.of_nat 2) with 2; rewrite Le; unfold nshoff; lia).
+  cbn [obind].
+  rewrite (rf 2 62 sx) by (try apply f_sx; change (N.of_nat 2) with 2; rewrite Le; unfold nshoff; lia).
+  cbn [obind].
+  assert (shnum * se <= lenN e) by lia.
+  replace (uadd true m' 18446744073709551616 nshoff (sx * se)) with (@Ok N (nshoff + sx * se))
+    by (symmetry; apply uadd_ok; split; [reflexivity | unfold nshoff, k in *; lia]).
+  cbn [obind].
+  replace (uadd true m' 18446744073709551616 (nshoff + sx * se) 24) with (@Ok N (nshoff + sx * se + 24))
+    by (symmetry; apply uadd_ok; split; [reflexivity | unfold nshoff, k in *; lia]).
+  cbn [obind].
+  rewrite (rf 8 (nshoff + sx * se + 24) noff) by (try apply f_noff; change (N.of_nat 8) with 8; rewrite Le; lia).
+  cbn [obind].
+  replace (N.to_nat (shnum + 1)) with (N.to_nat (shnum + 1 - 0)) by (f_equal; lia).
+  apply loop_from. lia.
+Qed.
+
+(* what the produced file looks like, relative to the original *)
+Lemma preserves_core :
+  (* below the insertion point only e_shoff and e_shnum change *)
+  (forall o n, o + n <= pos -> (o + n <= 40 \/ 48 <= o) -> (o + n <= 60 \/ 62 <= o) -> subN e' o n = subN e o n) /\
+  fieldN e' 40 8 = shoff + k + lenN p /\ fieldN e' 60 2 = shnum + 1 /\
+  (* the name and its terminator are inserted at the end of the name table *)
+  subN e' pos k = name ++ [zero] /\
+  (* everything between the name table and the old section header table moves up by |name|+1 *)
+  subN e' (pos + k) (shoff - pos) = subN e pos (shoff - pos) /\
+  (* the payload follows, then the new section header table *)
+  subN e' (shoff + k) (lenN p) = p /\
+  lenN e' = shoff + k + lenN p + (shnum + 1) * se /\
+  (* old section headers: every byte outside sh_offset of later sections and sh_size of the names section *)
+  (forall o n, (forall j, sx < j < shnum -> o + n <= j * se + 24 \/ j * se + 32 <= o) ->
+               (o + n <= sx * se + 32 \/ sx * se + 40 <= o) -> o + n <= shnum * se ->
+               subN e' (shoff + k + lenN p + o) n = subN e (shoff + o) n).
+Proof.
+  pose proof W1. pose proof LT. pose proof LA. pose proof LB.
+  split; [exact hd_sub|]. split; [exact f_shoff|]. split; [exact f_shnum|].
+  split; [|split; [|split; [|split]]].
+  - rewrite NF. replace pos with (lenN Hd + 0) at 1 by (rewrite LHd; lia).
+    rewrite subN_app_r'. rewrite <- Lins. apply subN_prefix.
+  - rewrite NF. replace (pos + k) with (lenN Hd + (lenN ins + 0)) by (rewrite LHd, Lins; lia).
+    rewrite !subN_app_r'. rewrite <- LR. rewrite subN_prefix. unfold R, X.
+    rewrite lenN_dropN, lenN_takeN_le by lia. apply dropN_takeN. exact PS.
+  - rewrite NF. replace (shoff + k) with (lenN Hd + (lenN ins + (lenN R + 0))) by (rewrite LHd, Lins, LR; lia).
+    rewrite !subN_app_r'. apply subN_prefix.
+  - exact Le'.
+  - intros o n D1 D2 D3. fold nshoff. rewrite tab_sub. rewrite subN_app_l by (rewrite LS; exact D3).
+    now apply FR.
+Qed.
+End Roundtrip.
+
+Lemma elf_roundtrip m m' e name p e' :
+  wf_elf e -> ~ has_section e name -> name_ok name ->
+  lenN e + lenN name + lenN p + 65537 < 18446744073709551616 ->
+  add_elf m e name p = Ok e' -> extract_elf m' e' name = Ok p.
+Proof.
+  intros W NS NK FIT H.
+  destruct (add_elf_shape m e name p e' H) as (sht2 & hdr4 & Hv & A1 & A2 & A3 & A4 & A5 & A6 & A7 & A8 & A9 & A10 & A11 & A12 & A13 & A14 & ->);
+    [lia|].
+  eapply roundtrip_core; eauto.
+Qed.
+
+Lemma elf_preserves m e name p e' :
+  wf_elf e ->
+  lenN e + lenN name + lenN p + 65537 < 18446744073709551616 ->
+  add_elf m e name p = Ok e' ->
+  let shoff := e_shoff e in let se := e_shentsize e in let shnum := e_shnum e in let sx := e_shstrndx e in
+  let pos := names_off e + names_size e in let k := lenN name + 1 in
+  lenN e = shoff + shnum * se /\ pos <= shoff /\ sx < shnum /\ 40 <= se /\
+  (forall o n, o + n <= pos -> (o + n <= 40 \/ 48 <= o) -> (o + n <= 60 \/ 62 <= o) -> subN e' o n = subN e o n) /\
+  fieldN e' 40 8 = shoff + k + lenN p /\ fieldN e' 60 2 = shnum + 1 /\
+  subN e' pos k = name ++ [zero] /\
+  subN e' (pos + k) (shoff - pos) = subN e pos (shoff - pos) /\
+  subN e' (shoff + k) (lenN p) = p /\
+  lenN e' = shoff + k + lenN p + (shnum + 1) * se /\
+  (forall o n, (forall j, sx < j < shnum -> o + n <= j * se + 24 \/ j * se + 32 <= o) ->
+               (o + n <= sx * se + 32 \/ sx * se + 40 <= o) -> o + n <= shnum * se ->
+               subN e' (shoff + k + lenN p + o) n = subN e (shoff + o) n).
+Proof.
+  intros W FIT H.
+  destruct (add_elf_shape m e name p e' H) as (sht2 & hdr4 & Hv & A1 & A2 & A3 & A4 & A5 & A6 & A7 & A8 & A9 & A10 & A11 & A12 & A13 & A14 & ->);
+    [lia|].
+  cbv zeta. split; [exact A2|]. split; [exact A3|]. split; [exact A5|]. split; [exact A4|].
+  eapply preserves_core; eauto.
+Qed.
+
